@@ -1333,9 +1333,22 @@ NUMERIC = (NotPSDError, NanError)
 CACHE_TOL = 1e-8  # first prediction after the save point when one side uses caches of the history and the other rebuilds them
 
 
+NAMED_PRIOR_TARGETS = ("lengthscale", "outputscale", "noise", "variance", "period_length", "offset")
+
+
 def build_model(entry: Entry, arch, seed, data):
     torch.manual_seed(seed)  # library-side random initialisation (RFF weights, spectral deltas, ...) follows the seed too
-    return entry.build(arch, Vals(seed), data)
+    model = entry.build(arch, Vals(seed), data)
+    if arch.get("named_prior"):
+        # the documented short form `register_prior(name, prior, "<parameter name>")` on the first module that has such a parameter:
+        # its closures are made by the library, and they have to survive every persistence mechanism like everything else
+        for mod in model.modules():
+            hit = next((t for t in NAMED_PRIOR_TARGETS if isinstance(mod, gpytorch.Module) and ("raw_" + t) in mod._parameters), None)
+            if hit is not None:
+                mod.register_prior("c18_named_prior", P.NormalPrior(0.75, 1.5), hit)
+                getattr(model, "_c18", {"priors": []})["priors"].append("NamedNormal")
+                break
+    return model
 
 
 def make_data(entry: Entry, arch, seed):
@@ -1505,6 +1518,8 @@ def make_case(p, name, hist_kind=None):
     entry = REGISTRY[name]
     arch = entry.arch(p)
     kind = hist_kind or p.choice(HISTORY_KINDS)
+    if entry.family != "list":
+        arch["named_prior"] = p.choice([False, False, True])
     return {"entry": name, "arch": arch, "seeds": {"data": p.int(0, 10**6), "src": p.int(0, 10**6), "dst": p.int(10**6 + 1, 2 * 10**6)},
             "history": history_ops(p, kind), "dst_warm": p.choice([True, True, False]), "legacy_constant_key": p.choice([False, False, True])}
 
